@@ -314,3 +314,51 @@ func diffInfo(a, b raft.Info) string {
 	}
 	return ""
 }
+
+// remoteClient returns the library's remote client for n, dialling through
+// the in-memory network.
+func (c *Cluster) remoteClient(n *Node) *raft.Client {
+	return raft.VerifNewClient(n.addr, func(network, address string, timeout time.Duration) (net.Conn, error) {
+		return c.net.Dial("client", address, timeout)
+	})
+}
+
+// takeSnapshotRemote is takeSnapshot through the remote client.
+func (c *Cluster) takeSnapshotRemote(n *Node, threshold uint64) {
+	oid := c.nextOp()
+	c.rc.emitNode(n.dir, &ev.Rec{K: "admin-call", Op: "snapshot", OpID: oid, Idx: threshold, Note: "remote"})
+	idx, err := c.remoteClient(n).TakeSnapshot(threshold)
+	ret := &ev.Rec{K: "admin-ret", Op: "snapshot", OpID: oid, Idx: idx, Kind: "ok"}
+	if err != nil {
+		ret.Kind, ret.Lost, ret.Note = errKind(err)
+		ret.Err = err.Error()
+		c.recognisable(n, err)
+	}
+	c.rc.emitNode(n.dir, ret)
+}
+
+// transferRemote is transfer through the remote client.
+func (c *Cluster) transferRemote(n *Node, target uint64, timeout time.Duration) {
+	oid := c.nextOp()
+	c.rc.emitNode(n.dir, &ev.Rec{K: "admin-call", Op: "transfer", OpID: oid, Tgt: target, Note: "remote"})
+	err := c.remoteClient(n).TransferLeadership(target, timeout)
+	ret := &ev.Rec{K: "admin-ret", Op: "transfer", OpID: oid, Tgt: target, Kind: "ok"}
+	if err != nil {
+		ret.Kind, ret.Lost, ret.Note = errKind(err)
+		ret.Err = err.Error()
+		c.recognisable(n, err)
+	}
+	c.rc.emitNode(n.dir, ret)
+}
+
+// recognisable: an error that came back through the remote client and reads
+// like one of the library's sentinel errors must be that sentinel (C18: a
+// client recognises them by equality).
+func (c *Cluster) recognisable(n *Node, err error) {
+	for name, s := range raft.VerifSentinels() {
+		if err != s && err.Error() == s.Error() {
+			c.rc.emitNode(n.dir, &ev.Rec{K: "remote-error-unrecognisable", Note: name, Err: err.Error()})
+		}
+	}
+	c.rc.emitNode(n.dir, &ev.Rec{K: "remote-error", Note: fmt.Sprintf("%T", err)})
+}
